@@ -100,6 +100,14 @@ class G:
                 op = r.choice(['&&', '||'])
                 self.hit('logic'); return Bin(op, self.expr(INT, sc, depth - 1, allow_effects), self.expr(INT, sc, depth - 1, allow_effects))
         else:
+            if k < .12 and depth >= 1:
+                # a logical operator with a float operand: its truth is that of the VALUE (0.25 is true), the node is float-typed
+                op = r.choice(['&&', '||'])
+                t1, t2 = r.choice([(FLOAT, FLOAT), (FLOAT, INT), (INT, FLOAT)])
+                def fl(t):
+                    if t == FLOAT and r.random() < .5: return Lit(r.choice([0.25, 0.5, 0.75, 0.0]), FLOAT)
+                    return self.expr(t, sc, depth - 1, allow_effects)
+                self.hit('logic-float'); return Bin(op, fl(t1), fl(t2))
             if k < .6:
                 op = r.choice(['+', '-', '*', '/'])
                 t1, t2 = r.choice([(FLOAT, FLOAT), (FLOAT, INT), (INT, FLOAT)])
@@ -233,6 +241,20 @@ class G:
                 out.append(ExprS(Assign(tgt, Bin('+', tgt, e))))
             out.append(ExprS(Assign(e, Bin('+', e, self.lit(elem)))))
             self.hit('fresh-aggregate-in-loop')
+            return out
+        if self.o['floats'] and self.o['assign_expr'] and k < .915:
+            a, b = self.fresh(), self.fresh()
+            va, vb = Var(a, FLOAT, 'local'), Var(b, FLOAT, 'local')
+            sc.vars.append(va); sc.vars.append(vb)
+            out = [Decl(a, FLOAT, None), Decl(b, FLOAT, None)]
+            for _ in range(r.randint(1, 3)): out.append(ExprS(Affix(va, True, r.random() < .5)))
+            for _ in range(r.randint(2, 3)): out.append(ExprS(Affix(vb, True, r.random() < .5)))
+            tgt = self.assignable(FLOAT, sc)
+            if tgt is not None and tgt is not va and tgt is not vb:
+                out.append(ExprS(Assign(tgt, Bin(r.choice(['+', '-']), tgt, Bin('/', va, vb)))))
+            else:
+                out.append(ExprS(Assign(va, Bin('/', va, vb))))
+            self.hit('int-valued-float-division')
             return out
         if in_loop and k < .93:
             self.hit('break' ); return If(self.expr(INT, sc, 1), Break())
